@@ -119,7 +119,7 @@ def r03_3(prog, out):
     steppers = {b.id: stepper_ok(prog, b.id, nxt) for b in prog.facts.lib_bodies()
                 if b.impl_self == ackid and not b.impl_trait and b.kind == "AssocFn" and b.arg_count == 1 and b.local_ty(1) == "&mut " + ackid}
     writers = [(bid, e) for bid in R.actor_methods(R.sub_actor) for e in prog.effects(bid) if e.kind == "write" and e.touches(R.next_ack_id)
-               and (not e.chain or (len(e.chain) == 1 and e.chain[0][0] in steppers))]
+               and (prog.is_own(bid, e) or (len(e.chain) == 1 and e.chain[0][0] in steppers))]
     pop_ids = {bid for bid, _ in R.poppers()}
     for bid, e in writers:
         key = "counter-writer:%s" % prog.short(bid)
@@ -128,14 +128,25 @@ def r03_3(prog, out):
         else:
             out.violation(key, prog.loc(bid, e.bb), "%s rewrites the lease counter: ack ids can repeat" % prog.short(bid))
     # (c) in the popper: id of each delivery = read of the counter; the counter is overwritten with next(read) before the next read
-    for bid in pop_ids:
+    units = []
+    for pid0 in pop_ids:
+        units.append(pid0)
+        # the delivery may be built in a closure of the handler (`batch.into_iter().map(|m| { let id = self.next_ack_id; .. })`)
+        units += [c for c in prog.facts.descendants(pid0) if prog.facts.body(c) is not None and not prog.facts.body(c).coroutine
+                  and any(True for _ in prog.info(c).calls(lambda cc: cc.target == pm_new))]
+    for bid in units:
         bi = prog.info(bid)
         news = [(bb, t) for bb, t in bi.calls(lambda c: c.target == pm_new)]
         key = "fresh-id:%s" % prog.short(bid)
         if not news:
-            out.undecided(key, prog.loc(bid), "no PulledMessage::new in the popper")
+            if bid in pop_ids and not any(u != bid and prog.facts.body(u).root == (prog.facts.body(bid).root or bid) or
+                                          (prog.facts.body(u).parent or "").startswith(bid) for u in units if u != bid):
+                out.undecided(key, prog.loc(bid), "no PulledMessage::new in the popper")
             continue
         ws = [e for bid2, e in writers if bid2 == bid]
+        if bid not in pop_ids:
+            from props.c09 import cells_of_effect
+            ws = [e for e in prog.effects(bid) if e.kind == "write" and not e.chain and R.next_ack_id in cells_of_effect(prog, bi, e)]
         for bb, t in news:
             o = prog.receiver_origin(bi, t.args[1])
             from props.c09 import cells_of
